@@ -140,6 +140,18 @@ pub fn run(vec: &J) -> Result<J, String> {
             }
             Ok(json!({"op":"enc.long","holder":holder,"ch":ch,"pad":pad,"n":n,"results":results}))
         }
+        "enc.zone" => {
+            // a DateTime in the named zone of the bundled tz database (built from the chrono value, no name lookup)
+            use chrono::TimeZone;
+            let name = vec["zone"].as_str().unwrap_or("UTC");
+            let tz: chrono_tz::Tz = name.parse().map_err(|_| format!("unknown zone {name}"))?;
+            let mut results = Vec::new();
+            for secs in [1_622_543_400i64, 946_684_799, 4_102_444_800] {
+                let v = Value::from(DateTime::from(chrono::Utc.timestamp_opt(secs, 250_000_000).unwrap().with_timezone(&tz)));
+                results.extend(encode_all(&v));
+            }
+            Ok(json!({"op":"enc.zone","zone":name,"results":results}))
+        }
         _ => Err(format!("unknown enc op {op}")),
     }
 }
